@@ -179,7 +179,6 @@ def r13e(P, R):
     f = P.fn(SEM + "operation_extension_resolver::resolve_operation_extensions")
     pv = Prov(f)
     # the lookup of an existing entry must scan the whole list
-    lets = [n for n in f.walk() if n.get("k") == "Let" and n["pat"].get("k") == "Binding" and n["pat"].get("name") == "existing"]
     removes = [c for c in f.walk() if c.get("k") == "MethodCall" and c["method"] == "remove" and "Import" in norm(c.get("recv_ty", ""))]
     R.floor("R13-e", "existing-entry removal", len(removes), 1)
     for c in removes:
